@@ -111,6 +111,8 @@ type bcsDriver struct {
 	n    int
 	cons base.ConsensusImplInterface
 	ts   int64 // a timestamp of the slot of validator V1 (position 0)
+	// consensus start height (newBcsStart)
+	start int64
 }
 
 const tdposInitTs = int64(1559021720000000000)
@@ -119,7 +121,14 @@ const tdposInitTs = int64(1559021720000000000)
 // enabled whose validator set in force is V1..Vn (initial proposers), on a
 // ledger holding blocks idRoot (height 0) and idCert (height 1). The local node
 // is V2 (V1 when alone).
-func newBcs(name string, n int) (*bcsDriver, error) {
+func newBcs(name string, n int) (*bcsDriver, error) { return newBcsStart(name, n, 1) }
+
+// newBcsStart is newBcs with the consensus (and chained-BFT) start height
+// given: 1 (the stored block idCert was made by this consensus, a block at
+// height 2 is ABOVE the start height) or 2 (the consensus starts on top of the
+// stored tip idCert: a block at height 2 is AT the start height, a block at
+// height 1 BELOW it).
+func newBcsStart(name string, n int, start int64) (*bcsDriver, error) {
 	_, addrs := members(n)
 	quoted := make([]string, len(addrs))
 	for i, a := range addrs {
@@ -129,7 +138,7 @@ func newBcs(name string, n int) (*bcsDriver, error) {
 	if n < 2 {
 		self = "V1"
 	}
-	d := &bcsDriver{name: name, n: n}
+	d := &bcsDriver{name: name, n: n, start: start}
 	var conf string
 	switch name {
 	case "tdpos":
@@ -151,7 +160,7 @@ func newBcs(name string, n int) (*bcsDriver, error) {
 	cc := cctx.ConsensusCtx{BcName: world.BCName, Address: address(self), Crypto: world.Crypto, Contract: stubManager{}, Ledger: led, Network: stubNet{account: world.Addr(self)}}
 	cc.XLog = world.NopLogger{}
 	cc.Timer = timer.NewXTimer()
-	impl, err := newImpl(name, cc, def.ConsensusConfig{ConsensusName: name, Config: conf, StartHeight: 1, Index: 0})
+	impl, err := newImpl(name, cc, def.ConsensusConfig{ConsensusName: name, Config: conf, StartHeight: start, Index: 0})
 	if err != nil {
 		return nil, err
 	}
